@@ -198,7 +198,7 @@ package litefs
 
 // AcquireRemoteHaltLock. stage: 0 = nothing, 1 = granted by the primary (record g), 2 = g stored locally,
 // 3 = local position equals g.Pos.
-//@ func (db *DB) AcquireRemoteHaltLock [C13]
+//@ func (db *DB) AcquireRemoteHaltLock [C13,C07]
 //@   requires  db != nil && db.store != nil && db.store.Client != nil && ctx != nil && haltCellsWF(db) && typeis(aload(db.pos), ltx.Pos)
 //@   ghost stage int = 0
 //@   ghost g *HaltLock = nil
@@ -237,7 +237,7 @@ package litefs
 // and runs no recovery; a failed recovery leaves the reference in place.
 // (UnsetRemoteHaltLock itself is the one-line wrapper unsetRemoteHaltLock(ctx, lockID, false), inlined by the engine.)
 // The recovery runs under the write lock: DB.Recover takes it; with writeLocked the caller holds it and recover runs directly.
-//@ func (db *DB) unsetRemoteHaltLock [C13,C06]
+//@ func (db *DB) unsetRemoteHaltLock [C13,C06,C07]
 //@   requires  dbWF(db) && locksWF(db) && ctx != nil && haltCellsWF(db)
 //@   ghost rec int = 0
 //@   ghost cleared bool = false
@@ -253,7 +253,7 @@ package litefs
 
 // ReleaseRemoteHaltLock: local unset first (see above); the primary is told to release only after the local
 // reference is gone or was not ours, never on a primary, and with the caller's ID.
-//@ func (db *DB) ReleaseRemoteHaltLock [C13]
+//@ func (db *DB) ReleaseRemoteHaltLock [C13,C07]
 //@   requires  dbWF(db) && locksWF(db) && ctx != nil && haltCellsWF(db) && db.store.Client != nil
 //@   ghost unset int = 0
 //@   ghost told bool = false
